@@ -140,6 +140,70 @@ theorem ordered_complete_or_error {P : Params} (hP : P.lo ≤ P.hi) (hm : P.mode
   have he : s.ended = true := (reachable_inv5 hP hr).fe (by simp [hm]) hfin
   exact ⟨no_false_success_ordered_thm hP hm hr he hc herr, he⟩
 
+/-! ### the conditions inside the goroutines' function literals
+
+`Gen/Guards.lean` holds, regenerated from the source on every run, one function per condition of the
+function literals of `streamBlocks`, `streamBlocksUnordered` and `newNextBlockFunc` (the re-ordering
+goroutine, the workers, the consumer's `next`).  The transition system writes these conditions by hand
+(its `cur` is Go's `currentHeight + 1`); the theorems below say that what it writes IS what the code
+says.  A change of one of these conditions in the source breaks the corresponding theorem. -/
+
+open BtcVerif.Gen.Guards in
+/-- head of the re-ordering loop, `for currentHeight < toHeight` (stream_blocks.go) -/
+theorem reorderer_loop_head (P : Params) (s : State) (c : Nat) (hc : s.cur = c + 1) :
+    loopHead P s =
+      if blockscan_BlockScanner_streamBlocks_lit0_1 (currentHeight := c) (toHeight := P.hi)
+      then { s with rph := .loop } else exitX s := by
+  simp only [loopHead, blockscan_BlockScanner_streamBlocks_lit0_1, hc, Nat.add_one_le_iff, decide_eq_true_eq]
+
+open BtcVerif.Gen.Guards in
+/-- `if fromHeight == toHeight` after the first block (the D17 repair): no workers for a single-block range -/
+theorem single_block_branch (P : Params) (s : State) (good : Bool) :
+    afterFirst P s good =
+      if blockscan_BlockScanner_streamBlocks_lit0_0 (fromHeight := P.lo) (toHeight := P.hi)
+      then { s with latestOk := good, rph := .s0 }
+      else if blockscan_BlockScanner_streamBlocksUnordered_0 (toHeight := P.hi) (fromHeight := P.lo + 1)
+      then { s with latestOk := good, panicked := true }
+      else { s with latestOk := good, rph := .s0, workers := initWorkers P true, started := true } := by
+  simp only [afterFirst, blockscan_BlockScanner_streamBlocks_lit0_0, decide_eq_true_eq]
+
+open BtcVerif.Gen.Guards in
+/-- a worker returns when `nBlockToGet > toHeight` (stream_blocks_unordered.go), at its first height and
+after every block it has handed over -/
+theorem worker_exit_condition (P : Params) :
+    (∀ w, advance P w =
+      { pos := w.pos + P.p,
+        ph := if blockscan_BlockScanner_streamBlocksUnordered_lit0_0 (nBlockToGet := w.pos + P.p) (toHeight := P.hi)
+              then .done else .next }) ∧
+    (∀ i, initWorker P true i =
+      { pos := P.base + i,
+        ph := if blockscan_BlockScanner_streamBlocksUnordered_lit0_0 (nBlockToGet := P.base + i) (toHeight := P.hi)
+              then .done else .next }) := by
+  constructor
+  · intro w
+    simp only [advance, blockscan_BlockScanner_streamBlocksUnordered_lit0_0, gt_iff_lt, decide_eq_true_eq]
+    by_cases h : w.pos + P.p ≤ P.hi
+    · simp [h, Nat.not_lt.mpr h]
+    · simp [h, Nat.lt_of_not_le h]
+  · intro i
+    simp only [initWorker, blockscan_BlockScanner_streamBlocksUnordered_lit0_0, gt_iff_lt, decide_eq_true_eq, if_true]
+    by_cases h : P.base + i ≤ P.hi
+    · simp [h, Nat.not_lt.mpr h]
+    · simp [h, Nat.lt_of_not_le h]
+
+open BtcVerif.Gen.Guards in
+/-- the remaining conditions of the three function literals are plain tests of a received flag: closed
+queues (`!more`, twice in the re-orderer, once in `next`), a block found under the latest hash (`ok`),
+and `channelsClosed`; the model's steps `loop → rel` (closed ⇒ `closedSeen`), `rel` (`buf.contains cur`,
+then `closedSeen ⇒ sendErr`) and `call → gotEnd` test exactly these flags -/
+theorem flag_tests_pinned :
+    (∀ b, blockscan_BlockScanner_streamBlocks_lit0_2 (more := b) = !b) ∧
+    (∀ b, blockscan_BlockScanner_streamBlocks_lit0_3 (more := b) = !b) ∧
+    (∀ b, blockscan_BlockScanner_streamBlocks_lit0_4 (ok := b) = b) ∧
+    (∀ b, blockscan_BlockScanner_streamBlocks_lit0_5 (channelsClosed := b) = b) ∧
+    (∀ b, blockscan_newNextBlockFunc_lit0_0 (more := b) = !b) :=
+  ⟨fun _ => rfl, fun _ => rfl, fun _ => rfl, fun _ => rfl, fun _ => rfl⟩
+
 /-! ### non-vacuity: the hypotheses are satisfiable, the model runs, the validator discriminates -/
 
 example : (⟨.ordered, 100, 101, 2⟩ : Params).lo ≤ (⟨.ordered, 100, 101, 2⟩ : Params).hi := by decide
